@@ -562,7 +562,7 @@ fn main() {
 
     if which == "all" || which == "injected" {
         // (a) all duration sequences of length 0..=5 (6 thorough uses fewer extras)
-        let max_len = 5usize;
+        let max_len = if cli.thorough { 6usize } else { 5 };
         let mut seqs: Vec<Vec<u128>> = vec![vec![]];
         let mut level: Vec<Vec<u128>> = vec![vec![]];
         for _ in 0..max_len {
@@ -622,7 +622,8 @@ fn main() {
         ns.extend([63, 64, 99, 100, 101, 128]);
         if cli.thorough {
             ns.extend(41..=62);
-            ns.extend([200, 255, 256, 257]);
+            ns.extend(65..=98);
+            ns.extend([200, 255, 256, 257, 511, 512, 513, 1000, 1024]);
         }
         let mut large: Vec<(usize, usize, u8)> = Vec::new(); // (n, order id, value mode)
         for &n in &ns {
@@ -658,6 +659,40 @@ fn main() {
             r.case(n as u64 + 1);
         });
         r.force_sample(json!({"large_collections": large.len(), "sizes": ns}));
+        // (b') every permutation of n distinct (and of n pairwise tied) durations, n = 6, 7 (thorough: 8, 9):
+        // the figures attached to a sample must follow it through every order, not only through a family
+        let perm_ns: &[usize] = if cli.thorough { &[6, 7, 8, 9] } else { &[6, 7] };
+        let mut perm_total = 0u64;
+        for &n in perm_ns {
+            let fact: u64 = (1..=n as u64).product();
+            perm_total += 2 * fact;
+            par_for(2 * fact, |i| {
+                if !cli.mine(i) {
+                    return;
+                }
+                let mode = (i % 2) as u8;
+                // Lehmer code -> permutation
+                let mut code = i / 2;
+                let mut pool: Vec<usize> = (0..n).collect();
+                let mut rank = Vec::with_capacity(n);
+                for k in (1..=n as u64).rev() {
+                    let f: u64 = (1..k).product();
+                    let idx = (code / f) as usize;
+                    code %= f;
+                    rank.push(pool.remove(idx));
+                }
+                let durations: Vec<u128> = rank.iter().map(|&k| 1000 + 37 * (if mode == 0 { k } else { k / 2 }) as u128).collect();
+                let inp = Inputs {
+                    sample_size: 2,
+                    tallies: (0..n).map(|k| if k % 3 != 2 { Some(tally_for(k)) } else { None }).collect(),
+                    durations,
+                    counters: [None, Some(Ok((0..n).map(counter_for).collect())), Some(Err(9)), None],
+                };
+                check_injected(&r, &inp);
+                r.case(n as u64 + 1);
+            });
+        }
+        r.force_sample(json!({"all_permutations_of": perm_ns, "collections": perm_total}));
     }
     if which == "all" || which == "loop" {
         let cases = loop_cases(cli.thorough);
@@ -669,8 +704,8 @@ fn main() {
         r.force_sample(json!({"loop_cases": cases.len()}));
     }
     r.set_bounds(json!({
-        "large_collections": "n in 6..=40, 63, 64, 99, 100, 101, 128 (thorough: ..=62, 200, 255..257) x {ascending via strides, descending, organ pipe, every stride permutation} x {distinct, pairwise tied}",
-        "injected": {"durations_ps": DURS.iter().map(|d| d.to_string()).collect::<Vec<_>>(), "max_len": 5, "sample_sizes": SIZES, "tally_presence_masks": MASKS, "counter_modes": if cli.thorough {9} else {3}},
+        "large_collections": "n in 6..=40, 63, 64, 99, 100, 101, 128 (thorough: ..=101, 200, 255..257, 511..513, 1000, 1024) x {ascending via strides, descending, organ pipe, every stride permutation} x {distinct, pairwise tied}",
+        "injected": {"durations_ps": DURS.iter().map(|d| d.to_string()).collect::<Vec<_>>(), "max_len": if cli.thorough {6} else {5}, "all_permutations_n": if cli.thorough {"6..=9"} else {"6, 7"}, "sample_sizes": SIZES, "tally_presence_masks": MASKS, "counter_modes": if cli.thorough {9} else {3}},
         "loop": {"entries": 5, "cost_scripts": 7, "sample_counts": [0,1,2,3,4], "sample_sizes": [1,2,3,"tuned"], "overheads_ps": [0,3], "alloc_scripts": 3, "counter_setups": 6}
     }));
     r.emit();
